@@ -13,7 +13,10 @@ RULE = ("Hypothesis-generated circuits over the full gate set (1-3 controls, arb
         "user wrote) a Pauli error [px,py,pz] (>=0, sum<=1, incl. 0.0 and 1.0), a depolarising error p in [0,1], or both. Oracle = "
         "independent density-matrix evolution: after every occurrence of a noisy gate the Pauli channel on each touched qubit (targets "
         "and controls) and the joint depolarising channel (1-p) rho + p (I/2^k (x) tr_k rho) on the k touched qubits. "
-        "Non-trivial = >=1 occurrence of a noisy multi-qubit gate with a non-zero rate. Distinct = distinct canonical JSON of the case.")
+        "Non-trivial = >=1 occurrence of a noisy multi-qubit gate with a non-zero rate (history part: an error with non-zero rate for a "
+        "gate of the circuit is added after the model was first used). The history part builds ONE NoiseModel in 2-3 stages and checks "
+        "translation, the same backend object and a fresh backend after every stage against the errors added so far. "
+        "Distinct = distinct canonical JSON of the case.")
 ASSUMPTIONS = ["numpy linear algebra", "reference gate table, Pauli channel and joint depolarising channel in vlib/refsim.py (self-tested; "
                "depolarising channel additionally self-tested here against the explicit Pauli-twirl sum)",
                "cirq's DensityMatrixSimulator is used only as the executor of the translated circuit (it is part of the observed system)",
@@ -240,6 +243,73 @@ def density(ctx):
 
 
 # ------------------------------------------------------------------------------------------------ sampled frequencies / expectation
+
+# ------------------------------------------------------------------------------------------------ one model built up in stages
+
+@part("history", quick=160, thorough=6000)
+def history(ctx):
+    """One NoiseModel object: add errors, use it (translate / simulate), add more errors (new gate names, second error type on an
+    already noisy gate), use it again - with the same backend object and with fresh ones. After every stage the density matrix is
+    the reference evolution for the errors added so far."""
+    import cirq
+    from tangelo.linq import translate_circuit, get_backend
+    from tangelo.linq.noisy_simulation import NoiseModel
+
+    @st.composite
+    def cases(draw):
+        c = draw(noisy_cases(with_init=False))
+        entries = c.pop("noise")
+        extra = draw(noise_for(c["gates"]))
+        have = {(nm, typ) for nm, typ, _ in entries}
+        entries += [e for e in extra if (e[0], e[1]) not in have]
+        nst = draw(st.integers(2, 3))
+        first = draw(st.sampled_from([1, 0, 1, 2]))          # number of entries in the first stage (0 = model used while still empty)
+        stages = [[] for _ in range(nst)]
+        for k, e in enumerate(entries):
+            if k < first:
+                stages[0].append(e)
+            else:
+                stages[draw(st.integers(1, nst - 1))].append(e)
+        c["stages"] = stages
+        return c
+
+    def body(case):
+        n = S.circuit_width(case)
+        nm = NoiseModel()
+        be_same = None
+        sofar, labs, late_effect = [], set(), False
+        present = {g["n"] for g in case["gates"]}
+        for k, stage in enumerate(case["stages"]):
+            for name, typ, par in stage:
+                if k > 0:
+                    old = {x[0] for x in sofar}
+                    labs.add("second-type-on-noisy-gate-after-use" if name in old else "new-gate-name-after-use")
+                    if name in present and (sum(par) if typ == "pauli" else par) > 0:
+                        late_effect = True
+                nm.add_quantum_error(name, typ, list(par) if typ == "pauli" else par)
+                sofar.append([name, typ, par])
+            if k == 0 and not stage:
+                labs.add("empty-first-stage")
+            tab = noise_table(sofar)
+            ref = reference_density(case["gates"], n, tab)
+            what = f"stage {k} ({len(sofar)} errors added so far)"
+            sub = {"gates": case["gates"], "noise": sofar}
+            cc = translate_circuit(S.build_circuit(case), "cirq", output_options={"noise_model": nm})
+            rho = cirq.DensityMatrixSimulator(dtype=np.complex128).simulate(cc).final_density_matrix
+            compare(rho, ref, sub, n, tab, None, "history:translate", f"{what}: translate_circuit with the staged model")
+            if be_same is None:
+                be_same = get_backend("cirq", n_shots=1, noise_model=nm)
+            for tag, be in (("same-backend", be_same), ("fresh-backend", get_backend("cirq", n_shots=1, noise_model=nm))):
+                ctx.np_seed({"k": k, "t": tag, "c": case})
+                _, r2 = be.simulate(S.build_circuit(case), return_statevector=True)
+                compare(r2, ref, sub, n, tab, None, "history:" + tag, f"{what}: simulate on the {tag}")
+            if set(nm.noisy_gates) != set(tab):
+                raise Fail(f"{what}: NoiseModel.noisy_gates is {sorted(nm.noisy_gates)}, errors were added for {sorted(tab)}",
+                           sig="history:noisy_gates-stale")
+        return late_effect and len([s_ for s_ in case["stages"] if s_]) >= 1, labs | {f"stages={len(case['stages'])}"}
+
+    ctx.search("history", cases(), body)
+
 
 def freq_band(p, N):
     return H.bernstein(p * (1 - p) / N, 1.0 / N)
